@@ -773,6 +773,10 @@ func c09bPricesFor(amtIn, debt sdk.Int, decIn, decOut int64, target *big.Int, se
 // (candidate threshold number [which]) + delta units in the last place.  Candidates: every threshold
 // the code COULD apply (plain / e-mode base, alone or times the first / second transit threshold).
 func (c *c09bCase) target(id uint64, which int, delta int64, seedP uint64) {
+	c.targetX(id, which, delta, seedP, false)
+}
+
+func (c *c09bCase) targetX(id uint64, which int, delta int64, seedP uint64, exact bool) {
 	a, k := c.w.a, c.w.a.LendKeeper
 	bp, found := k.GetBorrow(c.ctx, id)
 	if !found || bp.IsLiquidated {
@@ -796,13 +800,26 @@ func (c *c09bCase) target(id uint64, which int, delta int64, seedP uint64) {
 	lt, elt := rates.LiquidationThreshold, rates.ELiquidationThreshold
 	cands := []sdk.Dec{lt, elt, lt.Mul(r1.LiquidationThreshold), lt.Mul(r2.LiquidationThreshold),
 		elt.Mul(r1.LiquidationThreshold), elt.Mul(r2.LiquidationThreshold), lt.MulTruncate(r1.LiquidationThreshold), lt.MulTruncate(r2.LiquidationThreshold)}
-	// bias the choice towards the thresholds that are plausible for this borrow (3 of 4 draws)
-	if which%4 != 0 {
-		if bp.BridgedAssetAmount.Amount.IsZero() {
-			which = (which / 4) % 2
-		} else {
-			which = 2 + (which/4)%4
+	// 3 of 5 draws aim at the threshold the property's text makes applicable to THIS borrow (only to choose
+	// test inputs: the decision itself is re-made by the extracted model from the raw fields), the others
+	// at any of the eight candidates (decoys: another case's threshold)
+	if exact {
+		which = which % len(cands)
+	} else if which%5 < 3 {
+		firstDenom := c.w.idDenom[first]
+		switch {
+		case bp.BridgedAssetAmount.Amount.IsZero():
+			which = 0
+		case bp.BridgedAssetAmount.Denom == firstDenom:
+			which = 2
+		default:
+			which = 3
 		}
+		if pair.IsEModeEnabled {
+			which = []int{1, 1, 4, 5}[which]
+		}
+	} else {
+		which = (which / 5) % len(cands)
 	}
 	th := cands[which%len(cands)]
 	tgt := new(big.Int).Add(th.BigInt(), big.NewInt(delta))
@@ -857,7 +874,10 @@ func TestC09Borrow(t *testing.T) {
 		nsteps := 8 + r.intn(14)
 		kind := "random"
 		if ci%3 == 2 {
-			kind = "boundary" // mostly exact-threshold price moves followed by blocks
+			// exact-threshold price moves, each followed by a block that visits EVERY borrow (the debt the
+			// move was computed for includes the interest of exactly that block)
+			kind = "boundary"
+			batch = uint64(nb) + batch - 1
 		}
 		type bspec struct {
 			pair     int
@@ -895,6 +915,9 @@ func TestC09Borrow(t *testing.T) {
 		alive := true
 		for si := 0; si < nsteps && alive; si++ {
 			for k := 0; k < 2; k++ {
+				if kind == "boundary" && k == 1 {
+					break // one exact-threshold move, then a full pass of the window over it
+				}
 				s := steps[si*3+k]
 				open := c.openBorrows()
 				all := c.borrowIDs(c.ctx)
@@ -975,7 +998,7 @@ func r0(c *c09bCase) bool { return len(c.openBorrows()) > 0 }
 // (A2, pool 1); the collateral price is moved so that the ratio of borrow [focus] sits between the two
 // bridged thresholds and then just above / at / just below each of the three applicable thresholds.
 func c09bBridgeCase(w *c09bWorld, tr *tracer, ci int, focus int) {
-	c := c09bNewCase(w, tr, ci, fmt.Sprintf("bridge-%d", focus), 2)
+	c := c09bNewCase(w, tr, ci, fmt.Sprintf("bridge-%d", focus), 3) // every block visits all three
 	ids := []uint64{
 		c.newBorrow(0, 100000000, 800, false),  // A2 -> A1 same pool
 		c.newBorrow(8, 100000000, 800, false),  // A2 -> A4 cross pool, small: first transit (A3)
@@ -987,7 +1010,7 @@ func c09bBridgeCase(w *c09bWorld, tr *tracer, ci int, focus int) {
 	}
 	for _, which := range []int{0, 2, 3} {
 		for _, d := range []int64{-1, 0, 1} {
-			c.target(id, which, d, uint64(1000003*(which+1)))
+			c.targetX(id, which, d, uint64(1000003*(which+1)), true)
 			if !c.block() {
 				return
 			}
